@@ -21,6 +21,7 @@ Read as flags / constants (Definition gen_... : bool / N):
     subscribe/mod.rs Vec::downcast_raw: NoneLayerMarker answered iff self.is_empty()
     subscribe/mod.rs Option::None: register_callsite always, max_level_hint Some(OFF), enabled true
     filter/.../mod.rs Filtered::register_callsite: inner asked iff !interest.is_never(), its answer dropped, returns always
+    reload.rs        reload::Subscriber::downcast_raw forwards exactly the NoneLayerMarker
     filter/targets.rs Targets::interested / enabled / max_level_hint all read the DirectiveSet (enabled(metadata), max_level)
     filter/env/mod.rs EnvFilter::max_level_hint: TRACE when value filters exist, else max(statics.max_level, dynamics.max_level)
     filter/directive.rs DirectiveSet::add raises max_level, and recomputes it over all directives after a replacement
@@ -821,6 +822,14 @@ def main(repo, _unused=None):
         and norm(targets_fn("callsite_enabled", r"impl\s*<\s*C\s*>\s*subscribe::Filter\s*<\s*C\s*>\s*for\s+Targets\s*\{")) == norm("self.interested(metadata)")
         and norm(fn_body(block_after(directive, r"impl\s+DirectiveSet\s*<\s*StaticDirective\s*>\s*\{", "impl DirectiveSet<StaticDirective>"), "enabled", "DirectiveSet")) == norm(
             "let level = meta.level(); match self.directives_for(meta).next() { Some(d) => d.level >= *level, None => false, }")))
+
+    reload_src = load("reload.rs")
+    # reload::Subscriber as a Subscribe forwards EXACTLY the none-layer marker through the lock (never the
+    # per-subscriber-filter marker: Layered::new caches that answer when the stack is built, a reload could not update it)
+    flag("gen_reload_markers", lambda: norm(fn_body(block_after(
+        reload_src, r"impl\s*<\s*S\s*,\s*C\s*>\s*crate::Subscribe\s*<\s*C\s*>\s*for\s+Subscriber\s*<\s*S\s*>\s*where[^{]*\{", "impl Subscribe for reload::Subscriber"),
+        "downcast_raw", "reload::Subscriber")) == norm(
+        "if id == TypeId::of::<subscribe::NoneLayerMarker>() { return try_lock!(self.inner.read(), else return None).downcast_raw(id); } None"))
 
     def filtered_impl():
         return block_after(psf, r"impl\s*<\s*C\s*,\s*S\s*,\s*F\s*>\s*Subscribe\s*<\s*C\s*>\s*for\s+Filtered\s*<\s*S\s*,\s*F\s*,\s*C\s*>\s*where[^{]*\{", "impl Subscribe for Filtered")
